@@ -378,6 +378,7 @@ macro_rules! suite {
             ) -> PResult<RegFinish> {
                 let k = Self::build_ksf(ksf);
                 let params = ClientRegistrationFinishParameters::<$name>::new(ids_of(ids), k.as_ref());
+                let params = if clone_params() { params.clone() } else { params };
                 let ClientRegistrationFinishResult {
                     message,
                     export_key,
@@ -428,9 +429,16 @@ macro_rules! suite {
                     record.map(|r| r.get::<ServerRegistration<$name>>().clone()),
                     req.get::<CredentialRequest<$name>>().clone(),
                     cred_id,
-                    ServerLoginStartParameters {
-                        context: ctx,
-                        identifiers: ids_of(ids),
+                    {
+                        let p = ServerLoginStartParameters {
+                            context: ctx,
+                            identifiers: ids_of(ids),
+                        };
+                        if clone_params() {
+                            p.clone()
+                        } else {
+                            p
+                        }
                     },
                 )
                 .map_err(cp)?;
@@ -448,6 +456,7 @@ macro_rules! suite {
             ) -> PResult<LoginFinish> {
                 let k = Self::build_ksf(ksf);
                 let params = ClientLoginFinishParameters::<$name>::new(ctx, ids_of(ids), k.as_ref());
+                let params = if clone_params() { params.clone() } else { params };
                 let ClientLoginFinishResult {
                     message,
                     session_key,
